@@ -47,4 +47,38 @@ theorem IN_3D_fdf_row6 (i : IN_3D_fdf_In K)
   field_simp
   ring1
 
+set_option maxHeartbeats 4000000 in
+theorem IN_3D_fdf_row0 (i : IN_3D_fdf_In K)
+    (hsqrt : ∀ x, D (fn.sqrt x) = D x / (2 * fn.sqrt x))
+    (hpow : ∀ x a, D a = 0 → D (fn.pow x a) = a * fn.pow x a / x * D x)
+    (hmax : IN_3D_fdf_fn2 c c3 fn i = IN_3D_fdf_fn0 c c3 fn i)
+    (hseq : IN_3D_fdf_fn0 c c3 fn i ≠ 0)
+    (hy : D i.young = 0) (hnu : D i.nu = 0) (hth : D i.theta = 0) (hdt : D i.dt = 0)
+    (he0 : D i.eel0 = 0) (he1 : D i.eel1 = 0) (he2 : D i.eel2 = 0) (he3 : D i.eel3 = 0) (he4 : D i.eel4 = 0) (he5 : D i.eel5 = 0)
+    (hto0 : D i.eto0 = 0) (h1 : 1 + i.nu ≠ 0) (h2 : 1 - 2 * i.nu ≠ 0) :
+    D (IN_3D_fdf_F0 c c3 fn i) =
+      IN_3D_fdf_J0_0 c c3 fn i * D i.deel0 + IN_3D_fdf_J0_1 c c3 fn i * D i.deel1 + IN_3D_fdf_J0_2 c c3 fn i * D i.deel2
+      + IN_3D_fdf_J0_3 c c3 fn i * D i.deel3 + IN_3D_fdf_J0_4 c c3 fn i * D i.deel4 + IN_3D_fdf_J0_5 c c3 fn i * D i.deel5
+      + IN_3D_fdf_J0_6 c c3 fn i * D i.dp - D i.deto0 := by
+  have d1 : D (1 : K) = 0 := D.map_one_eq_zero
+  have d2 : D (2 : K) = 0 := by simpa using D.map_natCast 2
+  have d3 : D (3 : K) = 0 := by simpa using D.map_natCast 3
+  have hl : D (i.nu * i.young / ((1 + i.nu) * (1 - 2 * i.nu))) = 0 := by
+    simp only [Derivation.leibniz_div, Derivation.leibniz, map_add, map_sub, hy, hnu, d1, d2, smul_eq_mul]; ring
+  have hm : D (i.young / (2 * (1 + i.nu))) = 0 := by
+    simp only [Derivation.leibniz_div, Derivation.leibniz, map_add, map_sub, hy, hnu, d1, d2, smul_eq_mul]; ring
+  obtain ⟨q, hq⟩ : ∃ q, IN_3D_fdf_fn0 c c3 fn i = q := ⟨_, rfl⟩
+  obtain ⟨w, hw⟩ : ∃ w, IN_3D_fdf_fn1 c c3 fn i = w := ⟨_, rfl⟩
+  rw [hq] at hseq
+  simp only [gen_simp, mul_zero, zero_mul, add_zero, zero_add, mul_one, one_mul, sub_zero, zero_sub, zero_div, neg_zero] at hmax hq hw ⊢
+  generalize i.nu * i.young / ((1 + i.nu) * (1 - 2 * i.nu)) = l at hl hmax hq hw ⊢
+  generalize i.young / (2 * (1 + i.nu)) = m at hm hmax hq hw ⊢
+  simp only [hmax]
+  simp only [Derivation.leibniz_div, Derivation.leibniz, map_add, map_sub, map_neg, map_zero, hsqrt, hpow, D_ofNat, d1, d2, d3, hl, hm, hth, hdt,
+    he0, he1, he2, he3, he4, he5, hto0, smul_eq_mul, mul_zero, zero_mul, add_zero, zero_add, mul_one, one_mul, sub_zero, zero_sub, zero_div, neg_zero]
+  simp only [hq] at hw ⊢
+  simp only [hw]
+  field_simp
+  ring1
+
 end TfelVerif.C43
